@@ -125,3 +125,67 @@ var fixedEpoch = time.Unix(1700000000, 0).UTC()
 
 // ConstGlobalOK reads a package variable with a fixed initialiser.
 func ConstGlobalOK() int64 { return fixedEpoch.Unix() }
+
+// ---- loop variable controls (go.mod says go < 1.22: one variable per loop) ----
+
+type row struct {
+	name string
+	val  int
+}
+
+// LoopVarAddrKept keeps the address of a field of the range variable beyond the iteration.
+func LoopVarAddrKept(rows []row, want string) int {
+	var hit *int
+	for _, r := range rows {
+		if hit == nil && r.name == want {
+			hit = &r.val
+		}
+	}
+	if hit != nil {
+		return *hit
+	}
+	return -1
+}
+
+// LoopVarClosureKept keeps a closure over the range variable and calls it after the loop.
+func LoopVarClosureKept(rows []row, want string) int {
+	get := func() int { return -1 }
+	for _, r := range rows {
+		if r.name == want {
+			get = func() int { return r.val }
+		}
+	}
+	return get()
+}
+
+// LoopVarStoredByCallee hands the address of the range variable to a function that stores it.
+func LoopVarStoredByCallee(rows []row) map[string]*row {
+	m := map[string]*row{}
+	for _, r := range rows {
+		remember(m, &r)
+	}
+	return m
+}
+
+func remember(m map[string]*row, r *row) { m[r.name] = r }
+
+// LoopVarUsedInIterationOK takes the address only for a call that does not keep it.
+func LoopVarUsedInIterationOK(rows []row) int {
+	n := 0
+	for _, r := range rows {
+		n += read(&r)
+	}
+	return n
+}
+
+func read(r *row) int { return r.val }
+
+// LoopVarCopyOK copies the element into a variable of the iteration before its address is kept.
+func LoopVarCopyOK(rows []row) []*row {
+	var out []*row
+	for _, r := range rows {
+		c := r
+		out = append(out, &c)
+	}
+	return out
+}
